@@ -1,0 +1,180 @@
+//go:build verif
+
+package gtab
+
+import (
+	"unsafe"
+
+	"seehuhn.de/go/sfnt/glyph"
+)
+
+// Hooks for part C07B of the C07 verification harness (add-only, read-only):
+// they expose the fields of a Context that survive an Apply call.
+
+// VerifC07bDead describes one slot of ctx.stack[len:cap].
+type VerifC07bDead struct {
+	Nil                 bool
+	NPos, NActs, EndPos int
+}
+
+// VerifC07bCtx is a snapshot of the state a Context keeps between calls.
+type VerifC07bCtx struct {
+	LookupsLen, LookupsCap int
+	SeqNil                 bool
+	SeqLen, SeqCap         int
+	LookupIdx              int // index of ctx.lookup in ctx.ll (first match), -1 = nil, -2 = not in ll
+	KeepNil                bool
+	KeepFlags              LookupFlags
+	KeepSet                uint16
+	KeepGdefSame           bool // keep.Gdef == ctx.gdef
+	KeepMetaIdx            int  // index of the lookup whose Meta keep.Meta points to, -1 = none
+	StackLen, StackCap     int
+	Dead                   []VerifC07bDead
+	ScratchLen, ScratchCap int
+	Scratch                []int
+}
+
+// VerifC07bState returns the snapshot.
+func (ctx *Context) VerifC07bState() VerifC07bCtx {
+	st := VerifC07bCtx{
+		LookupsLen: len(ctx.lookups), LookupsCap: cap(ctx.lookups),
+		SeqNil: ctx.seq == nil, SeqLen: len(ctx.seq), SeqCap: cap(ctx.seq),
+		LookupIdx: -1, KeepNil: ctx.keep == nil, KeepMetaIdx: -1,
+		StackLen: len(ctx.stack), StackCap: cap(ctx.stack),
+		ScratchLen: len(ctx.scratch), ScratchCap: cap(ctx.scratch),
+		Scratch: append([]int(nil), ctx.scratch...),
+	}
+	if ctx.lookup != nil {
+		st.LookupIdx = -2
+		for i, l := range ctx.ll {
+			if l == ctx.lookup {
+				st.LookupIdx = i
+				break
+			}
+		}
+	}
+	if ctx.keep != nil {
+		st.KeepFlags = ctx.keep.Meta.LookupFlags
+		st.KeepSet = ctx.keep.Meta.MarkFilteringSet
+		st.KeepGdefSame = ctx.keep.Gdef == ctx.gdef
+		for i, l := range ctx.ll {
+			if l != nil && l.Meta == ctx.keep.Meta {
+				st.KeepMetaIdx = i
+				break
+			}
+		}
+	}
+	full := ctx.stack[:cap(ctx.stack)]
+	for _, p := range full[len(ctx.stack):] {
+		if p == nil {
+			st.Dead = append(st.Dead, VerifC07bDead{Nil: true})
+		} else {
+			st.Dead = append(st.Dead, VerifC07bDead{NPos: len(p.InputPos), NActs: len(p.Actions), EndPos: p.EndPos})
+		}
+	}
+	return st
+}
+
+// VerifC07bSeqIs reports whether ctx.seq starts at the same array element as s
+// (both non-empty in capacity).
+func (ctx *Context) VerifC07bSeqIs(s []glyph.Info) bool {
+	if cap(ctx.seq) == 0 || cap(s) == 0 {
+		return false
+	}
+	return unsafe.SliceData(ctx.seq) == unsafe.SliceData(s)
+}
+
+// VerifC07bLookupsIs reports whether ctx.lookups is the slice s itself (same
+// first element, length and capacity): NewContext does not copy.
+func (ctx *Context) VerifC07bLookupsIs(s []LookupIndex) bool {
+	if len(ctx.lookups) != len(s) || cap(ctx.lookups) != cap(s) {
+		return false
+	}
+	if cap(s) == 0 {
+		return true
+	}
+	return unsafe.SliceData(ctx.lookups) == unsafe.SliceData(s)
+}
+
+// VerifC07bLookups returns a copy of ctx.lookups.
+func (ctx *Context) VerifC07bLookups() []LookupIndex {
+	return append([]LookupIndex(nil), ctx.lookups...)
+}
+
+// VerifC07bProbe is a subtable that never matches and changes nothing.  Put
+// in front of the subtables of a lookup it is called by applyAt in the middle
+// of an Apply call, where it checks what must hold for the state of the
+// context at every point a subtable is applied; violations go to Report.
+type VerifC07bProbe struct {
+	Report func(msg string)
+}
+
+func (p *VerifC07bProbe) encodeLen() int { return 0 }
+
+func (p *VerifC07bProbe) encode() []byte { return nil }
+
+func (p *VerifC07bProbe) apply(ctx *Context, a, b int) int {
+	say := func(msg string) {
+		if p.Report != nil {
+			p.Report(msg)
+		}
+	}
+	if a < 0 || a >= b || b > len(ctx.seq) {
+		say("applyAt outside the sequence")
+	}
+	// the keep function in use is the one of the lookup in use
+	if ctx.lookup == nil {
+		say("ctx.lookup is nil while a subtable is applied")
+	} else {
+		found := false
+		for _, l := range ctx.ll {
+			if l == ctx.lookup {
+				found = true
+			}
+		}
+		if !found {
+			say("ctx.lookup is not a lookup of the list")
+		}
+		wantNil := ctx.gdef == nil || ctx.gdef.GlyphClass == nil || ctx.lookup.Meta.LookupFlags == 0
+		switch {
+		case wantNil != (ctx.keep == nil):
+			say("ctx.keep nil-ness does not fit the lookup in use")
+		case ctx.keep != nil && (ctx.keep.Gdef != ctx.gdef ||
+			ctx.keep.Meta.LookupFlags != ctx.lookup.Meta.LookupFlags ||
+			ctx.keep.Meta.MarkFilteringSet != ctx.lookup.Meta.MarkFilteringSet):
+			say("ctx.keep was built from other meta data than the lookup in use has")
+		}
+	}
+	// ownership of the int buffers: every live frame owns its InputPos array,
+	// the scratch buffer belongs to no live frame
+	var bases []*int
+	for _, f := range ctx.stack {
+		if f == nil {
+			say("nil frame on the stack")
+			continue
+		}
+		if cap(f.InputPos) > 0 {
+			bases = append(bases, unsafe.SliceData(f.InputPos))
+		}
+		for i, q := range f.InputPos {
+			if q < 0 || q >= f.EndPos || (i > 0 && f.InputPos[i-1] >= q) {
+				say("frame with InputPos not ascending below EndPos")
+				break
+			}
+		}
+		if f.EndPos > len(ctx.seq) {
+			say("frame with EndPos beyond the sequence")
+		}
+	}
+	for i := range bases {
+		for j := i + 1; j < len(bases); j++ {
+			if bases[i] == bases[j] {
+				say("two live frames share one InputPos array")
+			}
+		}
+		if cap(ctx.scratch) > 0 && unsafe.SliceData(ctx.scratch) == bases[i] {
+			say("ctx.scratch is the InputPos array of a live frame")
+		}
+	}
+	return -1
+}
